@@ -77,6 +77,9 @@ def run_one(path, fname, line, per_condition_timeout, per_path_timeout=None, ext
 def run_module(modname, names=None, per_condition_timeout=60, nproc=12, extra_env=None):
     """run every contract function (or `names`) of checks/ch/<modname>.py; -> list of result dicts (+ 'doc')"""
     path = os.path.join(HARNESS_DIR, modname + '.py')
+    # head-room: CrossHair's budget is wall-clock; on a loaded machine (other checks, a slower host) a harness that normally needs a tenth of
+    # its budget must still finish, and a harness that finishes early costs nothing
+    per_condition_timeout = int(per_condition_timeout * float(os.environ.get('VERIF_CH_SCALE', '2.5')))
     fl = func_lines(path)
     todo = [(n, fl[n][:2]) for n in (names or sorted(fl)) if n in fl]
     missing = [n for n in (names or []) if n not in fl]
